@@ -41,13 +41,28 @@ def Pat.noSlash : Pat → Bool
   | .ext _ p => p.noSlash
   | _ => true
 
-/-- no repeated group (`*(…)`, `+(…)`) stands at a start position (defect D1) -/
-def Pat.startSafe : Pat → Bool
-  | .seq p q => p.startSafe && (if p.isEmpty then q.startSafe else true)
-  | .alt p q => p.startSafe && q.startSafe
-  | .ext .star _ => false
-  | .ext .plus _ => false
-  | .ext _ p => p.startSafe
+/-- no start-of-name guard is emitted for the tokens standing at the start positions of `g`:
+    literals never carry one; `?` and brackets carry `(?![.])` only without DOTMATCH; `*` always
+    carries `(?=.)`; a negated group carries it on its star -/
+def Pat.guardFree (dot : Bool) : Pat → Bool
+  | .eps => true
+  | .lit _ => true
+  | .any => dot
+  | .cls _ _ => dot
+  | .star => false
+  | .seq p q => p.guardFree dot && (if p.isEmpty then q.guardFree dot else true)
+  | .alt p q => p.guardFree dot && q.guardFree dot
+  | .ext .neg _ => false
+  | .ext _ p => p.guardFree dot
+
+/-- defect D1 cannot bite: every repeated group (`*(…)`, `+(…)`) standing at a start position
+    has a guard-free body (the start guards would be re-tested at every iteration) -/
+def Pat.startSafe (dot : Bool) : Pat → Bool
+  | .seq p q => p.startSafe dot && (if p.isEmpty then q.startSafe dot else true)
+  | .alt p q => p.startSafe dot && q.startSafe dot
+  | .ext .star p => p.guardFree dot
+  | .ext .plus p => p.guardFree dot
+  | .ext _ p => p.startSafe dot
   | _ => true
 
 /-- first token of a sequence -/
